@@ -657,6 +657,18 @@ def _checker_pairs(seed: int, n: int, all_zoo: bool = False):
                         continue
                 if done:
                     break
+    # directed: one identifier, two classes (a submodel in one file, a shell or a concept description in the other)
+    from basyx.aas import model as _m
+    def _ident(cls_, id_):
+        if cls_ == "Submodel":
+            return _m.Submodel(id_, [_m.Property("p", _m.datatypes.Int, 1)])
+        if cls_ == "AssetAdministrationShell":
+            return _m.AssetAdministrationShell(_m.AssetInformation(_m.AssetKind.INSTANCE, global_asset_id="urn:asset"), id_)
+        return _m.ConceptDescription(id_)
+    for ca in ("Submodel", "AssetAdministrationShell", "ConceptDescription"):
+        for cb in ("Submodel", "AssetAdministrationShell", "ConceptDescription"):
+            if ca != cb:
+                out.append((_ident(ca, "urn:same"), _ident(cb, "urn:same"), ("Identifiable", f"class:{ca}->{cb}")))
     i = 0
     n = n + len(out)
     while len(out) < n and i < 4 * n:
@@ -786,6 +798,70 @@ def oracle(ctx: C.Ctx, cov: C.Coverage, n: Optional[int] = None, seed: Optional[
     f = unordered_list_probe()
     if f:
         add(f)
+    for f in entity_probe():
+        add(f)
+    return out
+
+
+_ENTITY_PROBE = r'''
+import sys, os, json, logging
+from aas_compliance_tool import compliance_check_xml as cx
+from aas_compliance_tool.state_manager import ComplianceToolStateManager
+which, p1, p2 = sys.argv[1:4]
+m = ComplianceToolStateManager()
+try:
+    if which == "schema":
+        cx.check_schema(p1, m)
+    elif which == "deserialization":
+        cx.check_deserialization(p1, m)
+    else:
+        cx.check_xml_files_equivalence(p1, p2, m)
+    print("RESULT " + json.dumps(["ok", [(s.name, s.status.name) for s in m.steps], m.status.name]))
+except Exception as e:
+    print("RESULT " + json.dumps(["raise", type(e).__name__, str(e)[:120]]))
+'''
+
+
+def entity_probe() -> List[C.Failing]:
+    """A well-formed, schema-valid XML file that spells one text through a general entity of its internal DTD subset denotes the
+    same data as the file with the text written out: every check delivers the same verdict for both.  Each call runs in a
+    process of its own — what is guarded against is the interpreter dying inside libxml2 (no verdict at all)."""
+    import subprocess
+    import sys
+    out: List[C.Failing] = []
+    ns = "https://admin-shell.io/aas/3/0"
+    body = ('<aas:environment xmlns:aas="' + ns + '"><aas:submodels><aas:submodel><aas:idShort>%s</aas:idShort><aas:id>urn:x</aas:id>'
+            '<aas:submodelElements><aas:property><aas:idShort>p</aas:idShort><aas:valueType>xs:string</aas:valueType>'
+            '<aas:value>SN-%s-2024</aas:value></aas:property></aas:submodelElements></aas:submodel></aas:submodels></aas:environment>')
+    d = tempfile.mkdtemp(prefix="verif-c20e-")
+    try:
+        plain, ent, script = os.path.join(d, "plain.xml"), os.path.join(d, "entity.xml"), os.path.join(d, "probe.py")
+        open(plain, "w").write('<?xml version="1.0"?>' + body % ("abc", "abc"))
+        open(ent, "w").write('<?xml version="1.0"?><!DOCTYPE x [<!ENTITY vf "abc">]>' + body % ("&vf;", "&vf;"))
+        open(script, "w").write(_ENTITY_PROBE)
+        env = dict(os.environ, PYTHONPATH=os.path.join(C.REPO, "sdk") + os.pathsep + os.path.join(C.REPO, "compliance_tool"))
+
+        def run(which, a, b="-"):
+            r = subprocess.run([sys.executable, script, which, a, b], capture_output=True, text=True, env=env, timeout=300)
+            if r.returncode != 0:
+                return ["died", r.returncode]
+            lines = [l for l in r.stdout.splitlines() if l.startswith("RESULT ")]
+            return json.loads(lines[-1][7:]) if lines else ["died", "no-result"]
+        for which, a, b in (("schema", ent, "-"), ("deserialization", ent, "-"), ("equivalence", ent, plain), ("equivalence", plain, ent)):
+            got = run(which, a, b)
+            ref = run(which, plain, plain if which == "equivalence" else "-")
+            case = {"entity_probe": which, "first": os.path.basename(a)}
+            if got[0] == "died":
+                out.append(C.Failing(f"tool:xml:{which}:process-died", f"check ({which}) on a file that references an internal general entity ended "
+                                     f"the interpreter (exit status {got[1]}): no verdict", case))
+            elif got[0] == "raise":
+                out.append(C.Failing(f"tool:xml:{which}:raises:{got[1]}:entity", f"check ({which}) raised {got[1]} on a file that references an "
+                                     f"internal general entity: {got[2]}", case))
+            elif ref[0] == "ok" and [st for _, st in got[1]] != [st for _, st in ref[1]]:
+                out.append(C.Failing(f"tool:xml:{which}:entity-form-judged-differently", f"{which}: the file with the entity gets {got[1]}, the same "
+                                     f"data written out gets {ref[1]}", case))
+    finally:
+        shutil.rmtree(d, ignore_errors=True)
     return out
 
 
@@ -809,6 +885,9 @@ def replay(case) -> Optional[C.Failing]:
         return unordered_list_probe()
     if "statuses" in case:
         return check_overall(case["statuses"])
+    if "entity_probe" in case:
+        fs_ = [f for f in entity_probe() if f.case == case]
+        return fs_[0] if fs_ else None
     fs = oracle(C.Ctx("C20", "quick", case.get("seed", 0), random.Random(0), 0, 1), C.Coverage(), seed=case.get("seed", 0))
     for f in fs:
         if all(f.case.get(k) == v for k, v in case.items() if k in ("fmt", "check", "category", "pair")):
